@@ -104,7 +104,7 @@ pub fn spec(id: &str, tier: Tier) -> Option<Spec> {
         },
         "C02" => Spec {
             id: "C02",
-            rule: "same generation as C01; oracle is purely structural on the result's own arrangement: (i) no point in two polygons, (ii) no point in two holes of a polygon and every hole point inside that polygon's exterior, (iii) polygon-wise reading == even-odd over all result rings, (iv) no atomic boundary piece occurs twice, (v) every hole has an interior face. Non-trivial: some result has >= 2 rings or a hole, or the operands share a boundary segment.",
+            rule: "same generation as C01 plus the `rings` family (concentric square frames on grids up to 24 x 24, results nested up to twelve levels deep); oracle is purely structural on the result's own arrangement: (i) no point in two polygons, (ii) no point in two holes of a polygon and every hole point inside that polygon's exterior, (iii) polygon-wise reading == even-odd over all result rings, (iv) no atomic boundary piece occurs twice, (v) every hole has an interior face. Non-trivial: some result has >= 2 rings or a hole, or the operands share a boundary segment.",
             design_ref: "§5 C02",
             families: with_rings(pair_families(tier, 120_000, 4_800_000, true, false, 28), tier),
             spaces: match tier {
@@ -127,7 +127,7 @@ pub fn spec(id: &str, tier: Tier) -> Option<Spec> {
         },
         "C05" => Spec {
             id: "C05",
-            rule: "same generation as C01; the five results I, U, A-B, B-A, X of one pair are compared with each other only (no operand oracle): [I]+[A-B]+[B-A]=[U] and [X]=[A-B] or [B-A] at every witness, and the three area identities (exact equality on exact families, 1e-9 relative otherwise). Non-trivial: I, A-B and B-A are all non-empty at some witness.",
+            rule: "same generation as C01; each call through a trait pairing chosen among those the part counts allow; the five results I, U, A-B, B-A, X of one pair are compared with each other only (no operand oracle): [I]+[A-B]+[B-A]=[U] and [X]=[A-B] or [B-A] at every witness, and the three area identities (exact equality on exact families, 1e-9 relative otherwise). Non-trivial: I, A-B and B-A are all non-empty at some witness.",
             design_ref: "§5 C05",
             families: pair_families(tier, 80_000, 4_000_000, true, false, 28),
             spaces: vec![],
